@@ -36,7 +36,7 @@ def valid_beat_duration(duration):
     else:
         r = duration
         while r != 1:
-            if r % 2 == 1 or r < 1:
+            if r % 2 != 0 or r < 1:
                 return False
             r /= 2
         return True
